@@ -9,7 +9,7 @@ prop("C03", [
 ], ["sequence numbers of a history lie in one 2^24 window (stated by the property)",
     "'in-order' means after the last in-order delivered event (C02's notion of a late arrival)",
     "record types that end an event: PROCTITLE, <=1299, >=2100; EOE completes a buffered event"],
-   nontrivial_classes=["history-with-loss", "history-with-late-or-duplicate-delivery", "history-crossing-seam", "many-events-delivered-by-one-call"])
+   nontrivial_classes=["history-with-loss", "history-with-late-or-duplicate-delivery", "history-crossing-seam", "many-events-delivered-by-one-call", "history-with-push-from-callback"])
 
 REASM_ASSUME = ["record types that end an event: PROCTITLE, <=1299, >=2100; EOE completes a buffered event",
                 "the harness' Stream recorder and bookkeeping are trusted; the Reassembler is driven from one goroutine"]
